@@ -300,6 +300,116 @@ fn partitions(n: usize) -> Vec<Vec<usize>> {
     out
 }
 
+
+// ------------------------------------------------------------------------------------------
+// typed targets: every entry point must agree for typed (not deserialize_any) requests too, and a typed iterator must never
+// yield a value built from a truncated prefix
+// ------------------------------------------------------------------------------------------
+/// a string requested through `deserialize_str` with a plain `visit_str` visitor (what a hand-written Deserialize impl does)
+#[derive(Debug, serde::Serialize)]
+struct ViaStr(String);
+impl<'de> serde::Deserialize<'de> for ViaStr {
+    fn deserialize<D: serde::Deserializer<'de>>(d: D) -> Result<ViaStr, D::Error> {
+        struct V;
+        impl<'de> serde::de::Visitor<'de> for V {
+            type Value = ViaStr;
+            fn expecting(&self, f: &mut std::fmt::Formatter) -> std::fmt::Result {
+                f.write_str("a string")
+            }
+            fn visit_str<E: serde::de::Error>(self, v: &str) -> Result<ViaStr, E> {
+                Ok(ViaStr(v.to_string()))
+            }
+        }
+        d.deserialize_str(V)
+    }
+}
+#[derive(Debug, serde::Deserialize, serde::Serialize)]
+struct TK {
+    #[serde(default)]
+    token: Option<ViaStr>,
+    #[serde(default)]
+    x: Option<i64>,
+    #[serde(default)]
+    n: Option<String>,
+    #[serde(default)]
+    f: Option<f64>,
+    #[serde(default)]
+    c: Option<char>,
+}
+#[derive(Serialize)]
+struct AgreeRec<'a> {
+    id: String,
+    kind: &'a str,
+    target: &'a str,
+    yaml: &'a str,
+    /// outcome per entry point; the first one (from_str) is the reference
+    outs: Vec<(String, Out)>,
+}
+fn agree_outs<T: serde::de::DeserializeOwned + serde::Serialize>(text: &str) -> Vec<(String, Out)> {
+    let n = text.len().max(1);
+    let o = || opts(-1);
+    vec![
+        ("str".into(), out_of(serde_saphyr::from_str_with_options::<T>(text, o()))),
+        ("slice".into(), out_of(serde_saphyr::from_slice_with_options::<T>(text.as_bytes(), o()))),
+        ("reader-ones".into(), out_of(serde_saphyr::from_reader_with_options::<_, T>(SchedReader::new(text.as_bytes(), text.len(), vec![1; n], false, std::io::ErrorKind::Other), o()))),
+        ("reader-big".into(), out_of(serde_saphyr::from_reader_with_options::<_, T>(SchedReader::new(text.as_bytes(), text.len(), vec![4096], false, std::io::ErrorKind::Other), o()))),
+        ("wd-str".into(), out_of(serde_saphyr::with_deserializer_from_str_with_options(text, o(), |de| T::deserialize(de)))),
+        ("wd-slice".into(), out_of(serde_saphyr::with_deserializer_from_slice_with_options(text.as_bytes(), o(), |de| T::deserialize(de)))),
+        ("wd-reader".into(), out_of(serde_saphyr::with_deserializer_from_reader_with_options(SchedReader::new(text.as_bytes(), text.len(), vec![3; n], false, std::io::ErrorKind::Other), o(), |de| T::deserialize(de)))),
+    ]
+}
+#[derive(Serialize)]
+struct TFRec<'a> {
+    id: String,
+    kind: &'a str,
+    target: &'a str,
+    yaml: &'a str,
+    ws: Vec<u8>,
+    avail: usize,
+    ending: &'a str,
+    cap: i64,
+    /// what the typed iterator yielded: the value as JSON text, or "ERR"
+    items: Vec<String>,
+    /// the items of the complete, fault-free text
+    ref_items: Vec<String>,
+    /// the single-document typed reader call
+    single: Out,
+}
+fn typed_items<T: serde::de::DeserializeOwned + serde::Serialize>(rd: SchedReader, cap: i64) -> Vec<String> {
+    let mut rd = rd;
+    let mut out = vec![];
+    for (n, it) in serde_saphyr::read_with_options::<_, T>(&mut rd, opts(cap)).enumerate() {
+        if n > 16 { out.push("NONTERMINATING".into()); break; }
+        out.push(match it { Ok(v) => serde_json::to_string(&v).unwrap_or_default(), Err(_) => "ERR".into() });
+    }
+    out
+}
+fn typed_fault_family<T: serde::de::DeserializeOwned + serde::Serialize>(target: &str, docs: &[&str], w: &mut NdWriter, stats: &mut Stats) {
+    for (di, text) in docs.iter().enumerate() {
+        let bytes = text.as_bytes();
+        let n = bytes.len();
+        let ws: Vec<u8> = text.chars().map(|c| c.len_utf8() as u8).collect();
+        let ref_items = typed_items::<T>(SchedReader::new(bytes, n, vec![4096], false, std::io::ErrorKind::Other), -1);
+        let mut put = |id: String, avail: usize, ending: &str, cap: i64, sched: Vec<usize>, w: &mut NdWriter| {
+            let items = typed_items::<T>(SchedReader::new(bytes, avail, sched.clone(), ending == "fault", std::io::ErrorKind::Other), cap);
+            let single = out_of(serde_saphyr::from_reader_with_options::<_, T>(SchedReader::new(bytes, avail, sched, ending == "fault", std::io::ErrorKind::Other), opts(cap)));
+            w.put(&TFRec { id, kind: "typed-fault", target, yaml: text, ws: ws.clone(), avail, ending, cap, items, ref_items: ref_items.clone(), single });
+        };
+        for k in 0..=n {
+            for ending in ["fault", "eof"] {
+                if ending == "eof" && k == n { continue; }
+                for (ci, sched) in [vec![1usize; n.max(1)], vec![4096]].into_iter().enumerate() {
+                    stats.faults += 1;
+                    put(format!("tf-{target}-d{di}-k{k}-{ending}-c{ci}"), k, ending, -1, sched, w);
+                }
+            }
+        }
+        for cap in 0..=n + 1 {
+            put(format!("tf-{target}-d{di}-cap{cap}"), n, "eof", cap as i64, vec![4096], w);
+        }
+    }
+}
+
 pub fn corpus() -> Vec<String> {
     let mut v: Vec<String> = [
         "a: 1\n", "k: é\n", "- ü\n- 2\n", "\"\\u00e9\"\n", "x: [1, 2\n", "€: 1\n", "𝄞\n", "a: b: c\n", "é: [ü, €, 𝄞]\n", "key: |\n  líne\n  two\n",
@@ -476,6 +586,31 @@ pub fn run(args: &Args) -> i32 {
             }
         }
     }
+    // (e) typed requests through every entry point: tagged and untagged scalars into strings requested with deserialize_str /
+    // deserialize_string, field names, numbers, chars
+    {
+        let tdocs = ["token: plain\n", "token: 'quoted'\n", "token: \"esc\\taped\"\n", "token: !!binary aGVsbG8=\n", "token: !!int 42\n", "token: !!str 5\n", "token: !!bool true\n",
+                     "token: !!null ~\n", "token: !!float 1.5\n", "token: !custom v\n", "token: |\n  blk\n", "token: ~\n", "!!binary eA==: 1\n", "!!str x: 2\n", "\"x\": 3\n",
+                     "n: !!binary aGk=\n", "n: !!int 7\n", "n: !!str 8\n", "n: plain\n", "n: 'q'\n", "x: !!str 3\n", "x: !!int 4\n", "x: '5'\n", "x: !!float 6\n", "f: !!int 1\n", "f: !!str 1.5\n",
+                     "f: .5\n", "c: !!str a\n", "c: 'b'\n", "c: !!int 7\n", "c: é\n", "token: é\nn: ü\n", "{token: !!binary aGVsbG8=, n: !!binary aGk=}\n", "zzz: !!binary eA==\n"];
+        for (i, t) in tdocs.iter().enumerate() {
+            w.put(&AgreeRec { id: format!("ag-tk-{i}"), kind: "agree", target: "TK", yaml: t, outs: agree_outs::<TK>(t) });
+        }
+        for (i, t) in ["plain\n", "!!binary aGVsbG8=\n", "!!int 42\n", "'q'\n", "!!str 7\n", "|\n  b\n", "!!null ~\n", "!x y\n", "é\n"].iter().enumerate() {
+            w.put(&AgreeRec { id: format!("ag-vs-{i}"), kind: "agree", target: "ViaStr", yaml: t, outs: agree_outs::<ViaStr>(t) });
+            w.put(&AgreeRec { id: format!("ag-st-{i}"), kind: "agree", target: "String", yaml: t, outs: agree_outs::<String>(t) });
+        }
+        for (i, t) in ["42\n", "!!int 42\n", "!!str 42\n", "'42'\n", "0x2A\n", "!!binary NDI=\n", "4_2\n", "!!float 42\n"].iter().enumerate() {
+            w.put(&AgreeRec { id: format!("ag-i-{i}"), kind: "agree", target: "i64", yaml: t, outs: agree_outs::<i64>(t) });
+        }
+    }
+    // (f) typed iterators and typed readers under every truncation point, fault and cap: a scalar target takes its event with a
+    // single next() and never looks again, so only the deferred error check stands between a truncated prefix and an Ok value
+    typed_fault_family::<i64>("i64", &["1234567\n", "12\n---\n3456\n", "-9876\n...\n", "0x1F2E\n"], &mut w, &mut stats);
+    typed_fault_family::<bool>("bool", &["true\n", "false\n---\ntrue\n"], &mut w, &mut stats);
+    typed_fault_family::<f64>("f64", &["12.5e3\n", "3.25\n---\n.5\n"], &mut w, &mut stats);
+    typed_fault_family::<String>("String", &["hello world\n", "'quoted é str'\n---\nplain\n"], &mut w, &mut stats);
+    typed_fault_family::<Vec<i64>>("Vec<i64>", &["- 12\n- 345\n", "[1, 22, 333]\n"], &mut w, &mut stats);
     // a long input with a small cap: the reader must not be drained past cap + allowance
     {
         let big = "k: ".to_string() + &"x".repeat(400_000) + "\n";
